@@ -107,10 +107,11 @@ theorem return_pass_iff (e : JVal) (r : FnResult) (h : DirectivesWF e) :
 /-- expectResource passes iff a request reached the mock, the outcome is a Retry, and the object the
     mock holds afterwards equals the expected one exactly (both without the last-applied annotation
     and without an annotations map that is empty). -/
-theorem resource_pass_iff (e : JVal) (r : FnResult) (h : DirectivesWF (stripLastApplied e)) :
+theorem resource_pass_iff (e : JVal) (r : FnResult) (h : DirectivesWF e) :
     verdict (.resource e) r = true ↔
       (∃ d m, r.out = .retry d m) ∧
       ∃ m, r.eff.materialized = some m ∧ EqMod (stripLastApplied e) (stripLastApplied m) := by
+  have h := wf_stripLastApplied e h
   simp only [verdict, resourceVerdict]
   cases hm : r.eff.materialized with
   | none => simp
@@ -121,7 +122,7 @@ theorem resource_pass_iff (e : JVal) (r : FnResult) (h : DirectivesWF (stripLast
 
 /-- … and with an expectation that names at least one ordinary key, a create or patch was attempted -/
 theorem resource_pass_requires_write (e : List (String × JVal)) (r : FnResult) (k : String) (v : JVal)
-    (h : DirectivesWF (stripLastApplied (.obj e)))
+    (h : DirectivesWF (.obj e))
     (hk : isDirective k = false) (hv : ∃ e', stripLastApplied (.obj e) = .obj e' ∧ lookup k e' = some v)
     (hp : verdict (.resource (.obj e)) r = true) : ∃ m, r.eff = .wrote m := by
   obtain ⟨_, m, hm, em⟩ := (resource_pass_iff _ r h).mp hp
@@ -349,7 +350,8 @@ example : EqMod exExpected exActual := (exact_match_iff _ _ (by decide)).mp (by 
 example : exactMatch exExpected (.obj [("spec", .obj [("paused", .bool false), ("replicas", .int 3)]),
     ("ports", .arr [.obj [("name", .str "dns"), ("port", .int 53)], .obj [("name", .str "http"), ("port", .int 80)]]),
     ("tags", .arr [.bool true, .str "a"])]) = false := by decide
-example : DirectivesWF (stripLastApplied f8Expected) ∧ noDir (stripLastApplied f8Sent) = true := by decide
+example : DirectivesWF f8Expected ∧ DirectivesWF (stripLastApplied f8Sent) ∧
+    noDir (stripLastApplied f8Sent) = true := by decide
 example : Dev (.obj [("a", .arr [.int 1, .int 2])]) (.obj [("a", .arr [.int 2, .int 1])]) :=
   Dev.inKey (o := [("a", .arr [.int 1, .int 2])]) (k := "a") rfl
     (Dev.swap (xs := []) (zs := []) (by rw [← exact_match_iff _ _ (by decide)]; decide))
